@@ -430,11 +430,18 @@ func runOracleCmd(prop, repo, verif string, budget int, only string) int {
 		}
 		hit, why := runOracles(o, prog, []*ssa.Function{fn}, budget)
 		if hit != nil {
-			fmt.Printf("ORACLE-FAIL %s at %s\n  input: %s\n  %s\n", hit.Oracle, hit.Where, truncate(hit.Input, 1500), truncate(hit.Output, 600))
+			fmt.Printf("ORACLE-FAIL %s at %s\n  input: %s\n  input tail: %s\n  %s\n", hit.Oracle, hit.Where, truncate(hit.Input, 1500), tail(hit.Input, 300), truncate(hit.Output, 600))
 			rc = 1
 		} else {
 			fmt.Printf("oracle %s: %s\n", fn.Name(), why)
 		}
 	}
 	return rc
+}
+
+func tail(s string, n int) string {
+	if len(s) > n {
+		return "..." + s[len(s)-n:]
+	}
+	return s
 }
